@@ -1,11 +1,12 @@
 (* Extraction of the executable model for the correspondence check.
    ExtrOcamlBasic only: bool/option/unit/list/prod/sumbool map to OCaml's;
    N/positive/nat stay inductive. No Extract Constant of ours. *)
-From XS Require Import Model.Store Model.Spec Model.Conc Model.Http Model.Handler Model.Codec.
+From XS Require Import Model.Store Model.Spec Model.Conc Model.Http Model.Handler Model.Codec Model.Restart.
 Require Import ExtrOcamlBasic.
 Cd "../build/extract".
 Extraction "xsmodel.ml" step run empty_store a_step a_empty hyp_ok hyp_all a_ctxs spec_read be16 of_be frame_eqb N.of_nat N.to_nat
   cstep crun cinit closed seen reals init_follower lock_free
   handle hrun
   serve dsl_closure dec quote
-  parse_ttl ttl_to_string ttl_of_pairs ro_of_pairs ro_to_pairs.
+  parse_ttl ttl_to_string ttl_of_pairs ro_of_pairs ro_to_pairs
+  compact_handlers compact_generators compact_commands spec_handlers spec_generators spec_commands.
